@@ -79,8 +79,10 @@ func HarnessC17Forward() {
 		outbox := &fwdPublisher{}
 		p := NewPublisher(outbox, PublisherConfig{})
 		orig.SetContext(context.WithValue(context.Background(), ctxKey{}, "v"))
-		err := p.Publish(topic, orig)
+		batch := []*message.Message{orig} // the caller's own argument slice
+		err := p.Publish(topic, batch...)
 		vrt.Assert(err == nil, "publishing through the forwarder publisher succeeds")
+		vrt.Assert(batch[0] == orig, "Publish leaves the caller's argument slice alone (it can be published again)")
 		vrt.Assert(len(outbox.calls) == 1 && outbox.calls[0].topic == defaultForwarderTopic && len(outbox.calls[0].msgs) == 1, "one envelope goes to the forwarder topic")
 		consumed = outbox.calls[0].msgs[0]
 		vrt.Assert(consumed.Context().Value(ctxKey{}) == "v", "the envelope carries the message context")
